@@ -108,7 +108,7 @@ type Schema struct {
 }
 
 func NewSchemaRef(schema *openapi3.SchemaRef, components Sourcer[Schema], opts SchemaOptions) (Ref[Schema], error) {
-	if schema == nil {
+	if schema == nil || (schema.Ref == "" && schema.Value == nil) {
 		return nil, fmt.Errorf("schema is not defined")
 	}
 	if schema.Ref != "" {
